@@ -641,3 +641,26 @@ func Par(n, w int, f func(i int)) {
 	close(ch)
 	wg.Wait()
 }
+
+// Assign distributes jobs with the given estimated costs over n shards (longest-processing-time-first, deterministic);
+// it returns the shard of each job. Every shard computes the same assignment.
+func Assign(costs []float64, n int) []int {
+	idx := make([]int, len(costs))
+	for i := range idx {
+		idx[i] = i
+	}
+	sort.SliceStable(idx, func(a, b int) bool { return costs[idx[a]] > costs[idx[b]] })
+	load := make([]float64, n)
+	out := make([]int, len(costs))
+	for _, i := range idx {
+		best := 0
+		for s := 1; s < n; s++ {
+			if load[s] < load[best] {
+				best = s
+			}
+		}
+		out[i] = best
+		load[best] += costs[i] + 1
+	}
+	return out
+}
